@@ -585,6 +585,10 @@ impl Check for C04 {
         o
     }
 
+    fn extra_evidence(&self) -> Value {
+        json!({"messages_the_model_peer_cannot_encode": unmodelled_cases(&self.ctx, &self.cases),
+               "enumerated_E_L_rows_quick": self.table(Tier::Quick).0.len()})
+    }
     fn shrink(&self, sc: &Value) -> Vec<Value> {
         let mut out = Vec::new();
         for t in shrink_sched(&sched_of(&sc["sched"])).into_iter().take(4) {
